@@ -66,6 +66,13 @@ def progs():
         ("sig", "def prog(a: Qint[5]) -> Qint[5]:\n    return a + 1\n"),
         ("sig", "def prog(a: Qint[7], b: bool) -> Qint[7]:\n    return a if b else 3\n"),
         ("sig", "def prog(a: bool) -> Qint[4]:\n    return 9 if a else 6\n"),
+        ("sig", "def prog(a: Qint[2], b: bool) -> Tuple[Qmatrix[bool, 2, 2], Qint[2]]:\n    return ([[a[0], a[1]], [b, not b]], a)\n"),
+        ("sig", "def prog(a: Tuple[Tuple[Tuple[bool, Qint[2]], bool], bool]) -> Tuple[Tuple[Tuple[bool, Qint[2]], bool], bool]:\n    return a\n"),
+        ("sig", "def prog(a: bool, b: Qint[2]) -> Tuple[Tuple[Tuple[bool, Qint[2]], bool], Qint[2]]:\n    return (((a, b), not a), b + 1)\n"),
+        ("sig", "def prog(a: Tuple[Tuple[Qint[2], bool], Tuple[bool, Qint[2]]]) -> Tuple[Qint[2], Tuple[Tuple[bool, bool], Qint[2]]]:\n    return (a[0][0], ((a[0][1], a[1][0]), a[1][1]))\n"),
+        ("sig", "def prog(a: bool, b: bool) -> bool:\n    a = a and b\n    return a\n"),
+        ("sig", "def prog(a: Qint[2], b: Qint[2]) -> Qint[2]:\n    a = a + b\n    a += 1\n    return a\n"),
+        ("sig", "def prog(a: bool, b: bool, c: bool) -> Tuple[bool, bool]:\n    b = b ^ a\n    c = c and b\n    return (c, b)\n"),
         ("sig", "def prog(a: Qlist[bool, 5]) -> Qint[4]:\n    c = 0\n    for x in a:\n        c += 1 if x else 0\n    return c\n"),
     ]
     return extra + P
@@ -74,8 +81,10 @@ def progs():
 def make_items(tier, seed):
     P = [p for p in progs() if corpus.size_ok(p[1], 12, 80)]
     out = []
-    for opt in (("default", "fast") if tier == "thorough" else ("default",)):
+    for opt in ("default", "fast"):
         for fam, src in P:
+            if opt == "fast" and tier != "thorough" and fam != "sig":
+                continue
             out.append({"fam": fam, "src": src, "opt": opt, "uncompute": True})
     if tier == "thorough":
         return out
